@@ -439,6 +439,8 @@ def sim_case(draw):
         # move-table entries: names (incl. the drivers' own default names) and per-entry interval / weight / minimum count
         "default_names": draw(st.booleans()),
         "table": [[draw(st.integers(1, 4)), draw(fl(0.05, 5.0)), draw(st.integers(0, 1))] for _ in range(2)],
+        # the first entry's move object listed once more under another name, with its own criteria and schedule
+        "alias": draw(st.booleans()),
     }
 
 
@@ -491,6 +493,13 @@ def build_sim(case):
         mc.accessible_volume = case["vacc"]
         add(mc, ExchangeMove(np.arange(3)), "zz_x", "default_exchange_move", 0)
         add(mc, DisplacementMove(np.arange(3)), "aa_d", "default_displacement_move", 1)
+    if case.get("alias"):
+        from quansino.mc.criteria import CanonicalCriteria, IsobaricCriteria
+
+        first = list(mc.moves)[0]
+        other = IsobaricCriteria() if isinstance(mc.moves[first].criteria, CanonicalCriteria) else CanonicalCriteria()
+        # practically never scheduled (weight 1e-300): only its place in the table and its serialisation matter here
+        mc.add_move(mc.moves[first].move, criteria=other, name="mm_alias", interval=3, probability=1e-300, minimum_count=0)
     return mc
 
 
@@ -507,7 +516,7 @@ def run_sim(case):
             mc.run(case["steps"])
     except Exception as exc:
         return {"labels": labels + ["run-raised"], "nontrivial": False, "violation": None, "discard": True, "summary": repr(exc)}
-    out = {"labels": labels + (["default-names"] if case.get("default_names") else []), "nontrivial": True, "key": f"{case['driver']}|{case['steps']}|{case['max_cycles']}|{case['seed']}|{case['logging_interval']}|{case.get('default_names')}|{case.get('table')}", "violation": None}
+    out = {"labels": labels + (["default-names"] if case.get("default_names") else []) + (["move-under-two-names"] if case.get("alias") else []), "nontrivial": True, "key": f"{case['driver']}|{case['steps']}|{case['max_cycles']}|{case['seed']}|{case['logging_interval']}|{case.get('default_names')}|{case.get('table')}", "violation": None}
     try:
         with warnings.catch_warnings():
             warnings.simplefilter("ignore")
